@@ -1,7 +1,8 @@
 """C11 -- restarting the server is invisible to reconnecting clients."""
 import ast
 
-from ..events import all_events
+from ..events import all_events, handler_of, is_listeners_reg
+from ..report import render_path
 from .. import e4 as e4mod
 from ..repo import dotted
 
@@ -19,6 +20,7 @@ EXPLANATION = (
     "because an evicted-while-held object makes the kept-server run differ from "
     "the rebuilt-server run. Not decided: full observational equivalence of the "
     "two runs.")
+EXPLANATION += ' Also decided: every entry point returns with both databases clean (uncommitted writes are process state), nothing observable happens inside a loop over an object registry unless it is scoped by the listener tables, and a container that is provably a function of the listener tables is exempt from the inventory.'
 
 LIFETIME_CLASSES = ("Server", "AppNamespace", "Mailbox", "WebSocketServerFactory",
                     "PrivacyEnhancedSite", "Root")
@@ -49,7 +51,7 @@ def run(ctx):
     ctx.rule("R11.reg", "registries are get-or-create caches; every eviction is "
              "holder-safe (rule U)")
     interp = ctx.model.interp
-    expected = set(list(interp.registries.keys()) + [("Mailbox", "_listeners")])
+    expected = set(list(interp.registries.keys()) + [ctx.model.names.listeners])
     found_state = {}
     for mname in MODS:
         mod = repo.modules[mname]
@@ -135,6 +137,18 @@ def run(ctx):
                    "undone on disconnect (rule U(a)): zero whenever no connection exists, "
                    "in the kept and in the rebuilt server alike")
             continue
+        if key[0] in LIFETIME_CLASSES and key in ctx.model.interp.container_attrs():
+            from . import shared
+            obs = shared.listener_index_obligations(ctx.model, key)
+            if obs and all(o[2] for o in obs) and \
+                    set(o[0] for o in obs) >= {"i", "ii", "iii"}:
+                ctx.ob("R11.inv", "%s.%s is an index derived from the listener tables" % key,
+                       True, "%s:%d" % (mod.path, node.lineno), "it grows only with a "
+                       "listener registration, shrinks only when a mailbox has no listener "
+                       "left and is updated wherever a listener is removed (%d path "
+                       "obligations): empty whenever nobody is subscribed, in the kept and "
+                       "in the rebuilt server alike" % len(obs))
+                continue
         # is it read anywhere other than in logging?
         reads = []
         for m2 in MODS:
@@ -210,10 +224,11 @@ def run(ctx):
     # R11.regdep: nothing observable may be control-dependent on whether an
     # object happens to be cached in an object registry
     _regdep(ctx)
+    _durable(ctx)
     # R11.reg
     e4 = e4mod.get(ctx.model)
     for f in e4.findings:
-        if f.kind == "rule_u" and "expire" not in e4.entry_of(f):
+        if f.kind == "rule_u" and not ctx.model.is_timer_entry(e4.entry_of(f)):
             # evictions performed by client commands happen identically in the
             # kept-server and the rebuilt-server run (all connections were
             # dropped at the restart point); only timer-driven evictions can
@@ -221,6 +236,13 @@ def run(ctx):
             continue
         ctx.ob("R11.reg", f.construct, f.ok, f.site, f.detail)
     ctx.require("R11.reg", len(e4.findings), 8, "registry rule instances")
+
+
+def _durable(ctx):
+    from . import shared
+    shared.r_durable(ctx, "R11.durable", ("chan", "usage"),
+                     "the kept server answers later commands from them, the rebuilt one "
+                     "has lost them")
 
 
 def _regdep(ctx):
@@ -271,5 +293,59 @@ def _regdep(ctx):
                        "server rebuilt from the database (empty registry) behaves "
                        "differently from one that was kept running" % (
                            "in" if True in allv else "not in"))
+    # loops over an object registry: what they do may depend on nothing but
+    # the listener tables (empty in both runs after the restart point)
+    from ..terms import strip_wrappers, mentions
+    nloops = [0]
+
+    def reg_of_iter(it):
+        if it is None:
+            return None
+        t = strip_wrappers(it)
+        if t[0] == "call" and t[1] in (".values", ".keys", ".items") and t[2]:
+            t = t[2][0]
+        if t[0] == "reg" and t[1][0] == "obj" and (t[1][1], t[2]) in regs:
+            return (t[1][1], t[2])
+        return None
+
+    def walk_alt(events, base_pc_len, r, loop_ev):
+        for x in events:
+            if x["k"] == "loop":
+                it = strip_wrappers(x["iter"]) if x.get("iter") else None
+                inner = it
+                if inner is not None and inner[0] == "call" and inner[2]:
+                    inner = inner[2][0]
+                if inner is not None and is_listeners_reg(inner):
+                    continue        # per listener: vanishes with the restart
+                for alt in x["alts"]:
+                    walk_alt(alt["events"], base_pc_len, r, loop_ev)
+                continue
+            obs = (x["k"] == "sql" and x["stmt"].mutating) or \
+                (x["k"] == "commit" and x.get("was_dirty")) or x["k"] in ("send", "raise")
+            if not obs:
+                continue
+            scoped = any(mentions(c[0], is_listeners_reg) for c in x["pc"][base_pc_len:])
+            if not scoped:
+                what = construct_of(x) if x["k"] != "send" else "send(%s)" % frame_type(x)
+                ctx.ob("R11.regdep", "%s inside a loop over %s.%s" % (what, r[0], r[1]),
+                       False, x, "the loop at %s:%d runs once per object cached in %s.%s: a "
+                       "server rebuilt from the database has none, so this happens only in "
+                       "the server that was kept running" % (
+                           loop_ev["site"][0], loop_ev["site"][1], r[0], r[1]))
+
+    seen_loops = set()
+    for p, e, loops in each_event(model, model.runtime_entries(), ("loop",)):
+        if id(e) in seen_loops:
+            continue
+        seen_loops.add(id(e))
+        r = reg_of_iter(e.get("iter"))
+        if r is None:
+            continue
+        nloops[0] += 1
+        for alt in e["alts"]:
+            walk_alt(alt["events"], len(e["pc"]), r, e)
+    ctx.ob("R11.regdep", "loops over object registries analysed", True, "",
+           "%d loops" % nloops[0])
+    ctx.require("R11.regdep", nloops[0], 1, "loops over an object registry")
     ctx.ob("R11.regdep", "observable events analysed", True, "", "%d sites" % len(occ))
     ctx.counts["R11.regdep: observable event sites"] = len(occ)
